@@ -655,7 +655,7 @@ func lenIsZero(info *types.Info, e ast.Expr, f *types.Var) (neg bool, ok bool) {
 // isParam reports whether e is a use of fn's idx-th parameter (unreassigned identity is
 // not checked; parameters are not reassigned in the anchored functions).
 func (r *Run) isParam(f *prog.FuncInfo, e ast.Expr, idx int) bool {
-	obj := prog.IdentObj(f.Pkg.TypesInfo, e)
+	obj := prog.IdentObj(f.Pkg.TypesInfo, deref(f.Pkg.TypesInfo, e))
 	if obj == nil {
 		return false
 	}
